@@ -153,12 +153,12 @@ class MyPyAstVisitor:
             # Can only be one, since a class can inherit "Generic" only one time
             generic_expr = getattr(generic_exprs[0], "index", None)
 
-            if isinstance(generic_expr, mp_nodes.TupleExpr):
-                generic_types = [item.node for item in generic_expr.items if hasattr(item, "node")]
-            elif isinstance(generic_expr, mp_nodes.NameExpr):
-                generic_types = [generic_expr.node]
-            else:  # pragma: no cover
-                raise TypeError("Unexpected type while parsing generic type.")
+            generic_items = generic_expr.items if isinstance(generic_expr, mp_nodes.TupleExpr) else [generic_expr]
+
+            # Only type variables are type parameters of the class, other type arguments (e.g. Sequence[int]) are not
+            generic_types = [
+                item.node for item in generic_items if isinstance(getattr(item, "node", None), mp_nodes.TypeVarExpr)
+            ]
 
             for generic_type in generic_types:
                 variance_type = mypy_variance_parser(generic_type.variance)
